@@ -15,5 +15,10 @@ def obligations(tier):
         o = ob("C10", "e2c." + did, "vt.harness.C10:cancel", {"did": did, "steps": steps, "control": "both", "tokens": True}, timeout=900)
         o["antecedents"] = ["c10_last_reported", "c10_offer_checked"]
         obs.append(o)
+    # cancel while an action is pending (the workflow is pausing/paused because of a task event, not a request)
+    from vt.harness.common import control_slices
+    o = ob("C10", "e2c.a5.D26", "vt.harness.A5:held_actions", {"prop": "C10", "did": "D26", "steps": 6, "control": "cancel"}, timeout=1200)
+    o["antecedents"] = ["a5_held", "c10_last_reported"]
+    obs.extend(control_slices(o, 7))
     obs.append(ob("C10", "twin.D04", "vt.harness.C10:cancel", {"did": "D04", "steps": 5, "control": "both", "twin": True}, timeout=60))
     return obs
